@@ -88,3 +88,18 @@ func vfProperCross(a, b, c, d XY) bool {
 	return vfAnd(vfOr(vfAnd(d1 > 0, d2 < 0), vfAnd(d1 < 0, d2 > 0)),
 		vfOr(vfAnd(d3 > 0, d4 < 0), vfAnd(d3 < 0, d4 > 0)))
 }
+
+// vfExistsXY: some location of the quarter-integer grid in [-2^k,2^k]^2 satisfies
+// pred (the symbolic engine asks the solver about every real location instead).
+func vfExistsXY(label string, k int, pred func(XY) bool) {
+	lim := float64(int(1) << uint(k))
+	for x := -lim; x <= lim; x += 0.25 {
+		for y := -lim; y <= lim; y += 0.25 {
+			if pred(XY{x, y}) {
+				return
+			}
+		}
+	}
+	panic(vfAssertFailed{label})
+}
+
